@@ -73,8 +73,9 @@ def parser() -> argparse.ArgumentParser:
         help="show plot window",
     )
     output_opts.add_argument(
-        "--plot_mode", default=SETTINGS.plot_mode_default,
-        help="the axes for plot projection",
+        "--plot_mode", default=None,
+        help="the axes for plot projection "
+        "(default: the plot_mode_default setting)",
         choices=["xy", "xz", "yx", "yz", "zx", "zy", "xyz"])
     output_opts.add_argument(
         "--plot_x_dimension", choices=["index", "seconds",
